@@ -204,7 +204,8 @@ class LDAWrapper(LinearSolver):
                 x0_loc[idia, ...] = 0
                 for x in x_data:
                     beta = x0_loc[isel, ...].T @ x.conj() / (x.conj() @ x)
-                    x0_loc[isel, ...] -= beta * x
+                    dx0 = beta * x[:, None]
+                    x0_loc[isel, ...] -= dx0 if np.iscomplexobj(x0_loc) else np.real(dx0)
             else:
                 x0_loc = None
 
